@@ -380,7 +380,7 @@ def run(ctx):
         "distinct_nontrivial": distinct,
         "rule": "quick tier, per registered type: zero / max / 2 edge / 2 random values by reflection, max-then-zero into the recycled object, a 256-byte string "
                 "(65535 bytes for 9 types, 255/32767/32768 too for Twalk/Tversion/Rreaddir), lists of 16 and 1000 elements, one 64 KiB payload, msize and msize-1; "
-                "Rreaddir exact-fit corpus; every ~16th..each frame byte overwritten, trailing bytes, short body, short stream, bad sizes, type bytes; "
+                "Rreaddir exact-fit corpus and prefix-fit corpus (an entry that does not fit followed by shorter ones that would, 13 counts x 2 orders); every ~16th..each frame byte overwritten, trailing bytes, short body, short stream, bad sizes, type bytes; "
                 "a real Client/Server session at versions 0 and 7 (thorough: 40 random, all five string lengths for every type, 65535-element lists, 1 MiB payload, "
                 "every byte of 3 frames). distinct_nontrivial = distinct (frame bytes, msize) among cases where a body-level encode/decode ran on non-zero content "
                 "(sent body not all zero; received frame delivered or rejected as invalid)",
